@@ -336,6 +336,51 @@ func runC07(c *mon.Ctx) {
 				c.Violate("C07/corruption-leaks-to-other-pid:"+kind, "models", i, fmt.Sprintf("corrupted pid %#x: %s", p, d), map[string]any{"stream": mon.Hex(b, 2500)})
 			}
 		}
+		// (d') garbage that is well-formed: on a PID other than 0 that carries tables (a PMT PID, a DVB SI PID), packets are replaced by
+		// one-packet units holding a correct section with table_id 0 — a "PAT" — that names the model's other PIDs as program map PIDs.
+		// A PAT only exists on PID 0: whatever that PID delivers for it, the other PIDs deliver what they delivered
+		for _, p := range pids {
+			if p == 0 || !(m.Early[p] || (p >= 0x10 && p <= 0x14)) {
+				continue
+			}
+			sec := gen.SimpleSection(r, refts.KindPAT, 1+r.IntN(200), 0)
+			sec.Syntax.Data.PAT.Programs = nil
+			for k, q := range pids {
+				if q != 0 && q != p {
+					sec.Syntax.Data.PAT.Programs = append(sec.Syntax.Data.PAT.Programs, &astits.PATProgram{ProgramNumber: uint16(k + 1), ProgramMapID: q})
+				}
+			}
+			if len(sec.Syntax.Data.PAT.Programs) == 0 {
+				continue
+			}
+			forged := gen.NewPSIUnit(r, p, 0, []*astits.PSISection{sec}, 0, false).Payload
+			if len(forged) > 184 {
+				continue
+			}
+			var b []byte
+			n := 0
+			for _, pk := range basePk {
+				if pk.Header.PID == p && pk.Header.HasPayload && (n == 0 || r.IntN(2) == 0) {
+					pk = gen.BuildPacket(p, pk.Header.ContinuityCounter, true, forged, nil, true)
+					n++
+				}
+				e, _ := refts.EncodePacket(pk, nil)
+				b = append(b, e...)
+			}
+			if n == 0 {
+				continue
+			}
+			got, run := perPIDOut(b)
+			c.Count("corruptions_compared")
+			c.Count("corrupted_with_a_forged_pat_on_another_pid")
+			if run.Panic != "" {
+				c.Violate("C07/panic-on-corruption:forged-pat", "models", i, run.Panic, map[string]any{"stream": mon.Hex(b, 2500)})
+				continue
+			}
+			if d := comparePerPID(got, base, map[uint16]bool{p: true}); d != "" {
+				c.Violate("C07/corruption-leaks-to-other-pid:forged-pat", "models", i, fmt.Sprintf("forged PAT on pid %#x: %s", p, d), map[string]any{"stream": mon.Hex(b, 2500)})
+			}
+		}
 		if i < 2 {
 			c.Sample("models", map[string]any{"pids": pids, "packets": len(basePk), "damaged": damaged, "merges": K + 3})
 		}
